@@ -16,6 +16,7 @@
 (*              beat), gaps (valid dropped inside the packet), junk        *)
 (*        e2e : pid ("DATA0"/"DATA1"), crc_ok                              *)
 (*   [e |-> "status", spur]        [e |-> "end", spur]                     *)
+(*   [e |-> "reset", spur]  the DUT's clock-domain reset was asserted      *)
 (* `spur` = device output observed since the previous response that no     *)
 (* host action asked for (stream/stall activity, resp. bus packets).       *)
 (***************************************************************************)
@@ -65,7 +66,7 @@ Failing(r) ==
         IF ~CanStatus THEN "env_status_not_allowed"
         ELSE IF r.spur # 0 THEN "spurious_output"
         ELSE "ok"
-    ELSE IF r.e = "end" THEN
+    ELSE IF r.e = "end" \/ r.e = "reset" THEN
         IF r.spur # 0 THEN "spurious_output" ELSE "ok"
     ELSE IF r.e = "in" THEN
         IF ~CanIn THEN "env_in_not_allowed"
@@ -88,6 +89,7 @@ Apply(r) ==
       [] r.e = "in"     -> In(r.ack, OutOf(r))
       [] r.e = "status" -> Status
       [] r.e = "end"    -> UNCHANGED vars
+      [] r.e = "reset"  -> Reset
 
 TInit == /\ cid \in 1..Len(Logs)
          /\ Init0
